@@ -384,7 +384,7 @@ class XMLFormatter(GraphtageFormatter):
     def print_XMLElement(self, printer: Printer, node: XMLElement):
         printer.write('<')
         self.print(printer, node.tag)
-        if node.attrib:
+        if node.attrib or (isinstance(node.attrib, EditedTreeNode) and node.attrib.inserted):
             self.print(printer, node.attrib)
         if node.text is None and isinstance(node, EditedTreeNode) and isinstance(node.edit, XMLElementEdit) \
                 and isinstance(node.edit.text_edit, Insert):
@@ -392,7 +392,8 @@ class XMLFormatter(GraphtageFormatter):
             text = node.edit.text_edit
         else:
             text = node.text
-        if node._children._children or (node.text is not None and '\n' in node.text.object):
+        if node._children._children or (node.text is not None and '\n' in node.text.object) or \
+                (isinstance(node._children, EditedTreeNode) and node._children.inserted):
             printer.write('>')
             if text is not None:
                 self.print(printer, text)
